@@ -722,6 +722,7 @@ theorem covers_wraps_total (f : Facts) (chunks : List Chunk) (off : Nat) : ∃ b
       rw [hr]
       cases r <;> exact ⟨_, rfl⟩
 
+set_option linter.unusedSimpArgs false in
 theorem step_wraps_not_poisoned (f : Facts) (s : State) (op : Op) (hp : s.poisoned = false) :
     (step f .wraps s op).1.poisoned = false := by
   unfold step
